@@ -135,6 +135,8 @@ type xiOutcome struct {
 	Diff       map[string][3]string // module -> prefix, kind, detail
 	OldStores  map[string][]kvPair
 	WholePanic string // InitChain failed for a reason that could not be attributed to a custom module
+	HdrChecked int      // modules also exported in a context carrying the block header
+	HdrDiffers []string // modules whose header-context export differs from the app export (imported and compared separately)
 }
 
 func unmarshalGenesis(cdc codec.Codec, module string, raw json.RawMessage) (validate func() error, initOn func(e *Env, ctx sdk.Context), err error) {
@@ -248,6 +250,46 @@ func initChainFrom(old *Env, appState []byte, exp int64) (ne *Env, panicText str
 	return ne, ""
 }
 
+// exportWithHeader exports one custom module through its own ExportGenesis in a context that carries the header of the
+// block boundary (height and block time), as a node does that exports inside a running chain (upgrade handlers,
+// in-place forks, simulation); `app export` itself uses a context with a zero block time.
+func exportWithHeader(e *Env, ctx sdk.Context, module string) (raw json.RawMessage, err error) {
+	defer func() {
+		if r := recover(); r != nil {
+			err = fmt.Errorf("export panic: %v", r)
+		}
+	}()
+	cdc := e.App.AppCodec()
+	switch module {
+	case "bet":
+		return cdc.MustMarshalJSON(bet.ExportGenesis(ctx, *e.App.BetKeeper)), nil
+	case "market":
+		return cdc.MustMarshalJSON(market.ExportGenesis(ctx, *e.App.MarketKeeper)), nil
+	case "orderbook":
+		return cdc.MustMarshalJSON(orderbook.ExportGenesis(ctx, *e.App.OrderbookKeeper)), nil
+	case "house":
+		return cdc.MustMarshalJSON(house.ExportGenesis(ctx, *e.App.HouseKeeper)), nil
+	case "ovm":
+		return cdc.MustMarshalJSON(ovm.ExportGenesis(ctx, *e.App.OVMKeeper)), nil
+	case "reward":
+		return cdc.MustMarshalJSON(reward.ExportGenesis(ctx, *e.App.RewardKeeper)), nil
+	case "subaccount":
+		return cdc.MustMarshalJSON(subaccount.ExportGenesis(ctx, *e.App.SubaccountKeeper)), nil
+	case "mint":
+		return cdc.MustMarshalJSON(mint.ExportGenesis(ctx, e.App.MintKeeper)), nil
+	}
+	return nil, fmt.Errorf("unknown module %s", module)
+}
+
+func canonJSON(raw json.RawMessage) string {
+	var v interface{}
+	if json.Unmarshal(raw, &v) != nil {
+		return string(raw)
+	}
+	bz, _ := json.Marshal(v)
+	return string(bz)
+}
+
 // ExportImport performs the export / validate / import cycle at the current block boundary of `e`:
 // the block of `e` is committed, the committed state exported, validated and imported into a fresh app (`o.New`, whose
 // context reads the committed state of the new chain; call `o.New.beginNext()` before using it further).
@@ -269,6 +311,19 @@ func (e *Env) ExportImport() *xiOutcome {
 		return x.AppState, err
 	}()
 	expHeight := e.App.LastBlockHeight() + 1
+	// second export of the same committed state, module by module, in a context carrying the block header
+	hdrCtx := e.App.NewContext(true, tmproto.Header{Height: e.App.LastBlockHeight(), Time: time.Unix(e.Time, 0).UTC()}).
+		WithBlockHeight(e.Height).WithBlockTime(time.Unix(e.Time, 0).UTC())
+	hdrGen := map[string]json.RawMessage{}
+	hdrErr := map[string]string{}
+	for _, m := range genesisModules {
+		raw, herr := exportWithHeader(e, hdrCtx, m)
+		if herr != nil {
+			hdrErr[m] = herr.Error()
+		} else {
+			hdrGen[m] = raw
+		}
+	}
 	e.beginNext()
 	if err != nil {
 		o.ExportErr = err.Error()
@@ -324,6 +379,51 @@ func (e *Env) ExportImport() *xiOutcome {
 	for _, m := range genesisModules {
 		if p, k, d := storeDiff(m, o.OldStores[m], storeDump(o.New, m)); p != "" {
 			o.Diff[m] = [3]string{p, k, d}
+		}
+	}
+	// the export taken in a context with the block header must restart the same chain as well: where it differs from
+	// the app export, it is validated and imported on its own and the stores are compared again
+	o.HdrChecked = len(hdrGen)
+	for _, m := range genesisModules {
+		if _, bad := o.Diff[m]; bad {
+			continue
+		}
+		if t, failed := hdrErr[m]; failed {
+			o.Diff[m] = [3]string{"export-with-block-header", "export-panic", t}
+			continue
+		}
+		if canonJSON(hdrGen[m]) == canonJSON(o.Gen[m]) {
+			continue
+		}
+		o.HdrDiffers = append(o.HdrDiffers, m)
+		if v, _, uerr := unmarshalGenesis(cdc, m, hdrGen[m]); uerr != nil {
+			o.Diff[m] = [3]string{"export-with-block-header", "unmarshal", uerr.Error()}
+			continue
+		} else if verr := func() (err error) {
+			defer func() {
+				if r := recover(); r != nil {
+					err = fmt.Errorf("validate panic: %v", r)
+				}
+			}()
+			return v()
+		}(); verr != nil {
+			o.Diff[m] = [3]string{"export-with-block-header", "invalid", verr.Error()}
+			continue
+		}
+		gen2 := map[string]json.RawMessage{}
+		for k, v := range gen {
+			gen2[k] = v
+		}
+		gen2[m] = hdrGen[m]
+		bz, merr := json.Marshal(gen2)
+		must(merr)
+		ne2, ptxt := initChainFrom(e, bz, expHeight)
+		if ptxt != "" {
+			o.Diff[m] = [3]string{"export-with-block-header", "import-panic", ptxt}
+			continue
+		}
+		if p, k, d := storeDiff(m, o.OldStores[m], storeDump(ne2, m)); p != "" {
+			o.Diff[m] = [3]string{"export-with-block-header:" + p, k, d}
 		}
 	}
 	return o
